@@ -30,4 +30,6 @@ def handleC09 (j : Json) : Except String Json := do
     ("oracle_contract", Json.bool oracleOk),
     ("agree", Json.bool agree), ("holds", Json.bool holds.isNone), ("clause", jOptStr holds)]
 
+def opsC09 : List (String × (Json → Except String Json)) := [("c09", handleC09)]
+
 end Jinns.Driver
